@@ -295,6 +295,9 @@ def _worker(task):
         return ("internal", f"{type(e).__name__}: {e}\n{traceback.format_exc()}")
 
 
+_WARM: set = set()
+
+
 def explore(scn, params, bounds, *, stmt_mask=None, horizon=20000, max_execs=200000, procs=None, seed=0, frontier=256, slice_execs=400, ignore_keys=()) -> Stats:
     """explore all executions of scn(params) within ``bounds`` = {ps, pl, env, free}"""
     import queue as _q
@@ -303,6 +306,13 @@ def explore(scn, params, bounds, *, stmt_mask=None, horizon=20000, max_execs=200
     opts = {"stmt_mask": stmt_mask, "horizon": horizon, "seed": seed, "ignore_keys": frozenset(ignore_keys)}
     procs = procs or min(16, os.cpu_count() or 1)
     st = Stats()
+    # warm-up: the library fills lazily built tables (e.g. the serializer's per-type dispatch cache) during
+    # the first execution of a process; statement-level traces of a cold and a warm run differ, so the
+    # recorded root execution must already be a warm one (its result is discarded)
+    key = (id(scn), repr(sorted(params.items(), key=lambda kv: kv[0])) if isinstance(params, dict) else repr(params))
+    if stmt_mask is not None and key not in _WARM:
+        _WARM.add(key)
+        run_once(scn.scenario, scn.oracle, params, [], stmt_mask=stmt_mask, horizon=horizon)
     # breadth-first expansion in this process until the frontier is wide enough
     level = [[]]
     while level and len(level) < frontier and st.execs < max_execs:
